@@ -85,9 +85,9 @@ func cmdCheck(args []string) {
 	if s := os.Getenv("VERIF_SEED"); s != "" {
 		seed, _ = strconv.Atoi(s)
 	}
-	timeout := 15000
+	timeout := 45000
 	if *tier == "thorough" {
-		timeout = 120000
+		timeout = 180000
 	}
 	t0 := time.Now()
 	evPath := filepath.Join(*verif, "evidence", *prop+".json")
@@ -218,6 +218,15 @@ func cmdCheck(args []string) {
 			}
 		}
 	}
+	slow := append([]*Obligation{}, proofObs...)
+	sort.Slice(slow, func(i, j int) bool { return slow[i].Time > slow[j].Time })
+	var slowest []any
+	for i, o := range slow {
+		if i >= 5 {
+			break
+		}
+		slowest = append(slowest, map[string]any{"obligation": o.Name, "time_s": o.Time, "solver": o.Solver})
+	}
 	tb := sortedKeys(trusted)
 	tb = append(tb, "go/ssa (x/tools v0.50.0) faithfully represents the compiled code", "SMT solvers z3 5.1.0 / cvc5 1.0 / z3 4.8.12",
 		"Go memory safety (no dangling or forged pointers)", "the VC generator govc itself (tested by the must-fail corpus, not proved)")
@@ -227,7 +236,7 @@ func cmdCheck(args []string) {
 		"checker_cmd":  fmt.Sprintf("govc check -prop %s -tier %s (per-obligation timeout %d ms)", *prop, *tier, timeout),
 		"trusted_base": tb, "samples": samples,
 		"functions_under_contract": funcs, "covers": len(covers), "covers_sat": coverSat, "covers_undecided": coverUndecided,
-		"solver_time_s": solverTime, "obligations_by_solver": bySolver, "known_findings": knownLines,
+		"solver_time_s": solverTime, "obligations_by_solver": bySolver, "known_findings": knownLines, "slowest_obligations": slowest,
 		"integers":    "mathematical Int with exact two's-complement wrap-around at every Go operation and conversion (no overflow assumed away); mode bv64fp uses 64-bit bit-vectors and IEEE-754 binary64",
 		"extraction":  "functions are verified as the go/ssa form of the files `go build -tags verif` compiles; dropped/abstracted: logging calls (no effect), channel ops and select (havocked), go statements (not merged), mutex Lock/Unlock (no-ops, atomicity assumed), termination (partial correctness)",
 		"explanation": "every obligation generated from the current source of the functions under contract was sent to the solvers; discharged == obligations means all were proved unsat",
